@@ -33,9 +33,9 @@ META = {
                     "constraints) with symbolic parameters are compiled by the real pipeline; z3 proves the robust "
                     "statements (R), (E1), (E2) for an arbitrary compiled-feasible vector, realisation, probability vector "
                     "and scaled conditional means.  The step from (E1)+(E2) to 'safe for every distribution' is the "
-                    "three-line lemma of DESIGN.md 3.1 (trusted)."),
+                    "three-line lemma of DESIGN.md 3.1 (Lean-checked for finitely supported distributions)."),
     "bounds": "2-3 scenarios (default and integer labels), 1-2 random variables, decisions of size <= 2, <= 2 events (disjoint, overlapping, selected by label), supports: intervals per scenario; expectation sets: intervals on E(z) per event; probability sets: simplex, simplex with upper bounds; an E-constraint with its own ambiguity set; thorough tier: two random variables and a type-1 Wasserstein ball (auxiliary random variable, abs in the supports)",
-    "trusted_base": ["z3/cvc5 (NRA)", "the safety lemma of DESIGN.md 3.1 (law of total expectation + convexity of the expectation sets)",
+    "trusted_base": ["z3/cvc5 (NRA)", "the safety lemma of DESIGN.md 3.1: its finite-support version is machine-checked (lean/Lemmas.lean dro_safety, job lemmas-lean); trusted: the passage to general distributions (law of total expectation) and convexity of the expectation sets, which puts the conditional means in the lifted set",
                      "the external solver returns a point feasible for the compiled program"],
     "assumptions": ["KL / norm probability sets and conic expectation sets are covered only through C08 (their dual standard forms) and not end-to-end here; Wasserstein-type sets only in the thorough tier"],
 }
